@@ -524,13 +524,23 @@ def c12_history(spec: dict) -> dict:
         V.append({"oracle": kind, "sig": f"{kind}|{what.split(',')[0]}", "detail": f"op {opi} on text {ti}: {what}: got {json.dumps(got, default=str)[:300]} want {json.dumps(want, default=str)[:300]}", "op": opi})
 
     last_text = None
+    after_fault = False
     clock.install()
     try:
         for opi in range(n_ops):
             kinds = ["parse", "parse", "parse_ns", "schedule", "observe", "observe", "report", "report", "cli", "gc"]
             if not fault_free:
                 kinds += ["cancel", "cancel", "io_fault", "clock", "tz", "env"]
-            k = kinds[tape.draw(len(kinds))]
+            kd = tape.draw(len(kinds))
+            k = kinds[kd]
+            if after_fault and k in ("gc", "clock", "tz", "env", "cancel", "io_fault", "schedule"):
+                # look at the engine right after a call that was cancelled or failed: that is when leftover state shows
+                k = ("parse", "cli", "parse", "report")[kd % 4]
+                stats["post_fault_observations"] = stats.get("post_fault_observations", 0) + 1
+            elif armed is not None and k in ("gc", "clock", "tz", "env", "observe", "io_fault"):
+                # an armed cancellation is spent on an operation that runs the parser / scheduler / report writer
+                k = ("parse", "cli", "schedule", "parse", "report")[kd % 5]
+            after_fault = False
             stats["ops"][k] = stats["ops"].get(k, 0) + 1
             if k == "gc":
                 gc.collect()
@@ -617,6 +627,11 @@ def c12_history(spec: dict) -> dict:
             s0 = clock.steps
             outcome = None
             exc = None
+            # an operation that finishes in a fresh interpreter must finish here too: 40x its fresh cost (at least
+            # 3e7 steps) is the bound after which it counts as not returning
+            fresh = {"parse": B.get("parse_steps"), "parse_ns": B.get("parse_steps"), "schedule": B.get("resched_steps"), "report": B.get("report_steps"), "cli": (B.get("parse_steps") or 0) * 2}.get(k) or 0
+            op_budget = max(30_000_000, 40 * fresh)
+            clock.budget = clock.steps + op_budget
 
             def do_op():
                 # a frame of its own: whatever the cancellation interrupts - including the context
@@ -650,6 +665,16 @@ def c12_history(spec: dict) -> dict:
                 exc = e
             finally:
                 clock.cancel_at = None
+                clock.budget = None
+            if isinstance(exc, StepBudgetExceeded):
+                mismatch("progress", opi, ti, f"op-step-budget, {k} did not return within {op_budget} steps (a fresh interpreter needs {fresh} for the same text)", None, fresh)
+                log.append([opi, k, ti, "StepBudgetExceeded", None, None])
+                if h is not None:
+                    h["poisoned"] = True
+                parser = ProjectFileParser()
+                armed = None
+                clock.fired = False
+                continue
             fired = clock.fired
             clock.fired = False
             was_armed = armed is not None
@@ -661,6 +686,8 @@ def c12_history(spec: dict) -> dict:
             log.append([opi, k, ti, type(exc).__name__ if exc else None, "cancel-fired" if fired else ("cancel-missed" if was_armed else None), "io" if io_hit else None])
             if len(handles) > 6:
                 handles.pop(0)
+            if fired or io_hit or (exc is not None and not isinstance(exc, Exception)):
+                after_fault = True
             if fired:
                 nm = type(clock.cancel_exc).__name__
                 stats["cancel_fired"][nm] = stats["cancel_fired"].get(nm, 0) + 1
